@@ -501,5 +501,7 @@ def jobs(tier):
         out += [("profiles-big", lambda j: job_profiles(j, 4, 7)), ("recovery-plots-6", lambda j: job_recovery_plots(j, 6)),
                 ("profiles-6x12", lambda j: job_profiles(j, 6, 12)), ("recovery-plots-10", lambda j: job_recovery_plots(j, 10)),
                 ("comparison-window3", lambda j: job_comparison(j, False, 3)),
-                ("profiles-8x20", lambda j: job_profiles(j, 8, 20)), ("recovery-plots-16", lambda j: job_recovery_plots(j, 16))]
+                ("profiles-8x20", lambda j: job_profiles(j, 8, 20)), ("recovery-plots-16", lambda j: job_recovery_plots(j, 16)),
+                ("profiles-12x30", lambda j: job_profiles(j, 12, 30)), ("recovery-plots-32", lambda j: job_recovery_plots(j, 32)),
+                ("comparison-window4", lambda j: job_comparison(j, False, 4)), ("comparison-window2-filter", lambda j: job_comparison(j, True, 2))]
     return out
